@@ -165,6 +165,11 @@ class MiniEval:
                 val = self.ev(s.value, env, mod)
                 for t in s.targets:
                     self.assign(t, val, env, mod)
+            elif isinstance(s, ast.AnnAssign):
+                if s.value is not None:
+                    self.assign(s.target, self.ev(s.value, env, mod), env, mod)
+            elif isinstance(s, ast.Assert):
+                pass
             elif isinstance(s, ast.AugAssign) and isinstance(s.target, ast.Name) and isinstance(s.op, ast.Add):
                 env[s.target.id] = env[s.target.id] + self.ev(s.value, env, mod)
             elif isinstance(s, ast.If):
